@@ -76,6 +76,7 @@ let wpc_s = function
   | WIdle -> "Idle" | WPopped -> "Popped"
   | WSvc0 (k, l) -> Printf.sprintf "Svc0.%d.%s" (ni k) (b01 l)
   | WSvc1 (k, l, r) -> Printf.sprintf "Svc1.%d.%s.%d%s" (ni k) (b01 l) (ni r.rid) (if r.rerr then "e" else "")
+  | WSvc1b (k, l, r) -> Printf.sprintf "Svc1b.%d.%s.%d%s" (ni k) (b01 l) (ni r.rid) (if r.rerr then "e" else "")
   | WTask (k, mc) -> Printf.sprintf "Task.%d.%s" (ni k) (b01 mc)
   | WClose1 k -> Printf.sprintf "Close1.%d" (ni k) | WClose2 k -> Printf.sprintf "Close2.%d" (ni k)
   | WClose3 k -> Printf.sprintf "Close3.%d" (ni k)
@@ -151,11 +152,11 @@ let wk_holds = function
   | _ -> false
 (* the worker owns the "token": it is inside service() before the point where it hands over *)
 let active = function
-  | WPopped | WSvc0 _ | WSvc1 _ | WTask _ | WClose1 _ | WClose2 _ | WKeep1 _ | WKeep2 _ | WKeep3 _ | WKeepAdd _ -> true
+  | WPopped | WSvc0 _ | WSvc1 _ | WSvc1b _ | WTask _ | WClose1 _ | WClose2 _ | WKeep1 _ | WKeep2 _ | WKeep3 _ | WKeepAdd _ -> true
   | _ -> false
 (* ... and requests still contains the request it serves *)
 let prepop = function
-  | WPopped | WSvc0 _ | WSvc1 _ | WTask _ | WClose1 _ | WClose2 _ | WKeep1 _ | WKeepAdd _ -> true
+  | WPopped | WSvc0 _ | WSvc1 _ | WSvc1b _ | WTask _ | WClose1 _ | WClose2 _ | WKeep1 _ | WKeepAdd _ -> true
   | _ -> false
 let early = function WPopped | WSvc0 _ | WSvc1 _ -> true | _ -> false
 
@@ -177,9 +178,10 @@ let invariants (s : state) : (string * bool) list =
     "reqs_nonempty", (not (ni s.queue > 0 || s.io = IoRCadd || exists prepop || sd_mid)) || s.reqs <> [];
     "m2_empty", (s.io <> IoM2) || s.reqs = [];
     "cwf_gdec", (not (s.cwf || s.io = IoHW1b || s.io = IoHW2 || s.io = IoHW3)) || s.gdec;
-    "safe", (not s.gdec) || (not s.conn) || closed || s.sd = SdC2;
+    "safe", (not s.gdec) || (not s.conn) || closed || s.wc;
     "late", List.for_all (fun (_, pc) -> match pc with
-        | WSvc0 (_, true) | WSvc1 (_, true, _) -> not s.conn | _ -> true) ws;
+        | WSvc0 (_, true) | WSvc1 (_, true, _) -> (not s.conn) || s.wc
+        | WSvc1b (_, true, _) -> s.wc | _ -> true) ws;
     "entry_iff", (not (s.conn && s.reqs <> [] && s.sd = SdIdle && ni s.queue = 0 && not (exists active) && not io_token))
                  || false;
   ]
